@@ -9,7 +9,7 @@ import (
 	"verif/harness/kit"
 )
 
-var outcomes = []string{"na", "na", "na", "ok", "ok", "ok", "ok", "nil", "rej401", "rej403", "rej418", "rej503", "plain", "plainctx", "plaindl", "okro", "okro", "okempty"}
+var outcomes = []string{"na", "na", "na", "ok", "ok", "ok", "ok", "nil", "rej401", "rej403", "rej418", "rej503", "plain", "plainctx", "plaindl", "okro", "okro", "okempty", "rej423p"}
 
 var authzKinds = []string{"none", "none", "allow", "allow", "deny", "deny409", "deny401", "denywrap"}
 
@@ -74,7 +74,7 @@ func genVec(t *rapid.T, alts []Alt) Vec {
 		for _, s := range SchemeNames {
 			v[s] = "na"
 		}
-		v[rapid.SampledFrom(SchemeNames).Draw(t, "aim-rej")] = rapid.SampledFrom([]string{"rej401", "rej418", "plain", "plainctx", "plaindl"}).Draw(t, "aim-rej-kind")
+		v[rapid.SampledFrom(SchemeNames).Draw(t, "aim-rej")] = rapid.SampledFrom([]string{"rej401", "rej418", "plain", "plainctx", "plaindl", "rej423p"}).Draw(t, "aim-rej-kind")
 	case 2:
 		a := alts[rapid.IntRange(0, len(alts)-1).Draw(t, "aim-alt")]
 		for _, s := range a.Schemes {
@@ -181,6 +181,7 @@ func GenStack(t *rapid.T) StackCase {
 	c.HandlerErr = rapid.Bool().Draw(t, "handler-observes-request")
 	c.LateAuthz = rapid.IntRange(0, 3).Draw(t, "authorizer-registered-late") == 0
 	c.TypeNamed = rapid.IntRange(0, 2).Draw(t, "definitions-named-like-their-type") == 0
+	c.DebugMode = rapid.IntRange(0, 2).Draw(t, "middleware-debug-on") == 0
 	for i := range c.Alts {
 		if !c.Alts[i].Anon && rapid.IntRange(0, 7).Draw(t, "empty-named-entry") == 0 {
 			c.Alts[i].EmptyName = true
@@ -217,6 +218,9 @@ func ClassifyStack(c StackCase) (bool, []string) {
 			labels = append(labels, "requirement object with an entry under the empty name")
 			break
 		}
+	}
+	if c.DebugMode {
+		labels = append(labels, "middleware.Debug on while the handler is built and served")
 	}
 	if c.TypeNamed {
 		labels = append(labels, "unrequired definitions named like their type, with authenticators")
